@@ -129,4 +129,14 @@ PROPS = {
         "scope": "subpath-pattern selection (esmPackageImportsExportsResolve loop + expansionKeysArray.Less) modelled; target resolution (conditions, arrays, null, invalid targets), file probing and node_modules lookup are decided by the three-way search against Node itself",
         "assumptions": ["Node 20 (createRequire().resolve / import.meta.resolve) is the reference", "esbuild is run with platform=node, mainFields=[main], conditions=[node-addons] (Node's own set)"],
     },
+    "C12": {
+        "lean_modules": ["EsbuildModel.Props.C12"],
+        "theorems": ["EsbuildModel.C12.compact_expand", "EsbuildModel.C12.canCompact_iff", "EsbuildModel.C12.compact_preserves_value"],
+        "open": ["Import.order_equiv: FALSE for duplicate imports under cascade layers (known finding c12-import-dedupe-important-layers)", "Box.collapse_equiv: FALSE with logical properties (known finding c12-box-collapse-ignores-logical-properties)"],
+        "gen_facts": [],
+        "kernels": [("csshex", 20000, 500000)],
+        "searches": [("c12-cascade", 600, 40000)],
+        "scope": "hex colour shortening (compactHex/expandHex/parseHex) modelled; rule merging, duplicate removal, box shorthands, number/colour/calc rewriting, lowering and @import bundling are decided by the independent cascade evaluator in the search",
+        "assumptions": ["the cascade evaluator (harness/cmd/hapi/cascade.go) is my reading of CSS Cascade 5 for compound selectors; there is no browser in the sandbox", "8-bit colour channels may differ by one step (alpha percentages)"],
+    },
 }
